@@ -113,28 +113,38 @@ func Under(diff []string, prefix string) (in, outside []string) {
 // Jail is a fresh directory with a target and sentinels around it.
 type Jail struct {
 	Root   string // the jail directory
-	Target string // Root/target
+	Target string // the target directory inside it
+	Rel    string // Target relative to Root ('/'-separated)
 }
 
-// NewJail creates jail/{target/,sentinel-a/keep,sentinel-file,target-sibling/x,targetX/}.
-// If makeTarget is false the target directory is not created.
+// NewJail creates jailXXXX/l1/l2/l3/l4/{target/,sentinel-a/keep,sentinel-file,target-sibling/x,targetX/}
+// plus a marker file on every level, so that an escape of up to five levels stays inside the
+// snapshotted jail. If makeTarget is false the target directory is not created.
 func NewJail(base string, makeTarget bool) (*Jail, error) {
 	root, err := os.MkdirTemp(base, "jail")
 	if err != nil {
 		return nil, err
 	}
-	j := &Jail{Root: root, Target: filepath.Join(root, "target")}
+	deep := root
+	for _, l := range []string{"l1", "l2", "l3", "l4"} {
+		os.WriteFile(filepath.Join(deep, "marker"), []byte("m"), 0o644)
+		deep = filepath.Join(deep, l)
+		if err := os.Mkdir(deep, 0o755); err != nil {
+			return nil, err
+		}
+	}
+	j := &Jail{Root: root, Target: filepath.Join(deep, "target"), Rel: "l1/l2/l3/l4/target"}
 	if makeTarget {
 		if err := os.Mkdir(j.Target, 0o755); err != nil {
 			return nil, err
 		}
 	}
-	os.MkdirAll(filepath.Join(root, "sentinel-a"), 0o755)
-	os.WriteFile(filepath.Join(root, "sentinel-a", "keep"), []byte("keep"), 0o644)
-	os.WriteFile(filepath.Join(root, "sentinel-file"), []byte("s"), 0o644)
-	os.MkdirAll(filepath.Join(root, "target-sibling"), 0o755)
-	os.WriteFile(filepath.Join(root, "target-sibling", "x"), []byte("x"), 0o600)
-	os.MkdirAll(filepath.Join(root, "targetX"), 0o755)
+	os.MkdirAll(filepath.Join(deep, "sentinel-a"), 0o755)
+	os.WriteFile(filepath.Join(deep, "sentinel-a", "keep"), []byte("keep"), 0o644)
+	os.WriteFile(filepath.Join(deep, "sentinel-file"), []byte("s"), 0o644)
+	os.MkdirAll(filepath.Join(deep, "target-sibling"), 0o755)
+	os.WriteFile(filepath.Join(deep, "target-sibling", "x"), []byte("x"), 0o600)
+	os.MkdirAll(filepath.Join(deep, "targetX"), 0o755)
 	return j, nil
 }
 
